@@ -22,7 +22,8 @@ MANIFEST = dict(
          "model: C10_retry_first_acceptable, C10_retry_chain) — the error path must still quote the body; and clients built with five RestConf "
          "option combinations (DefaultHeaders, Timeout(1|5|30) in the seconds convention, logging, Use) x methods with and without a context "
          "parameter against a transport that honours the request context: the status/body mapping is unchanged, a context cancelled before the call "
-         "or a deadline expiring during it comes back as that error, and the context the transport receives is the caller's (ctxwire).",
+         "or a deadline expiring during it comes back as that error, the context the transport receives is the caller's (ctxwire), and it stays "
+         "live until the body has been read (answers of 5-70 KiB delivered 97 bytes per Read by a body that fails once the request context is done).",
     note="Lean kernel + standard axioms; encoding/json behaviour on the four body classes and http.Client.Do are assumptions checked by the "
          "correspondence run; status >= 600 is outside the property (region Out, advisory). Known finding F_respWithError: a response that "
          "client.Do returns together with an error (refused redirect) is dropped.",
